@@ -148,6 +148,10 @@ func FileOp(h fileLike, t []string) string {
 	case "readfrom":
 		n, err := io.Copy(h, plainReader{bytes.NewReader(corr.UnHex(t[2]))})
 		return fmt.Sprintf("n=%d err:%s", n, FileErrClass(err))
+	case "copyout": // io.Copy out of the handle: io.WriterTo if the handle has it, Read until io.EOF otherwise
+		var buf bytes.Buffer
+		_, err := io.Copy(plainWriter{&buf}, h)
+		return fmt.Sprintf("bytes=%s err:%s", corr.Hex(buf.Bytes()), FileErrClass(err))
 	case "writeat":
 		b := corr.UnHex(t[2])
 		n, err := h.WriteAt(b, atoi64(t[3]))
@@ -239,6 +243,16 @@ func (f *Flat) Step(t []string) string {
 		}
 		r := f.data[h.pos:end]
 		h.pos = end
+		return fmt.Sprintf("bytes=%s err:-", corr.Hex(r))
+	case "copyout": // everything from the handle's position to the end; the end itself is not an error
+		if h.closed {
+			return "bytes=- err:closed"
+		}
+		if h.pos > L {
+			return "bytes=- err:eof"
+		}
+		r := f.data[h.pos:L]
+		h.pos = L
 		return fmt.Sprintf("bytes=%s err:-", corr.Hex(r))
 	case "readat":
 		n, off := int64(atoi(t[2])), atoi64(t[3])
@@ -441,6 +455,9 @@ func c02Random(r *corr.Rand, tier string) []corr.Case {
 				l = fmt.Sprintf("writeat %d %s %d", h, corr.Hex(payload(rr, rr.Intn(6))), offNear(rr, L))
 			case k < 52:
 				l = fmt.Sprintf("read %d %d", h, rr.Intn(8))
+				if rr.Chance(12) {
+					l = fmt.Sprintf("copyout %d", h)
+				}
 			case k < 66:
 				l = fmt.Sprintf("readat %d %d %d", h, rr.Intn(8), offNear(rr, L))
 			case k < 80:
@@ -521,6 +538,10 @@ func c02Corpus() []corr.Case {
 		mk("case 010203 wr", "seek 0 -1 0", "read 0 1", "write 0 09", "seek 1 -5 2", "read 1 2", "readat 1 2 -1", "writeat 0 07 -1"),
 		// read-only and closed handles are inert
 		mk("case 0102 wr", "write 1 09", "trunc 1 0", "close 0", "write 0 08", "trunc 0 1", "seek 0 0 0", "read 0 1", "readat 1 4 0"),
+		// a relative seek that fails leaves the position where it was
+		mk("case 01020304 wr", "seek 0 1 0", "seek 0 -3 1", "seek 0 0 1", "read 0 2", "write 0 09", "seek 1 2 0", "seek 1 -5 1", "seek 1 0 1", "read 1 4", "copyout 1", "size"),
+		// io.Copy out of a handle: from the position to the end, at the end, beyond the end, closed
+		mk("case 0102030405 wr", "seek 1 2 0", "copyout 1", "copyout 1", "read 1 1", "seek 1 9 0", "copyout 1", "copyout 0", "write 0 0a0b", "seek 0 1 0", "copyout 0", "close 1", "copyout 1", "size"),
 		// zero-length operations beyond EOF
 		mk("case 01 wr", "readat 1 0 5", "seek 1 3 0", "read 1 0", "writeat 0 - 4", "size"),
 	}
